@@ -34,10 +34,10 @@ def pVal : Nat → P Val
   | fuel + 1, ts =>
     match ts with
     | "L" :: rest => (pLeafKind rest).map fun (k, r) => (.leaf k, r)
-    | "N" :: takes :: isMap :: n :: rest =>
+    | "N" :: isMap :: n :: rest =>
       match n.toNat? with
       | none => none
-      | some n => (pMany (pVal fuel) n rest).map fun (items, r) => (.node (tokBool takes) (tokBool isMap) items, r)
+      | some n => (pMany (pVal fuel) n rest).map fun (items, r) => (.node (tokBool isMap) items, r)
     | "S" :: k :: tid :: p :: rest =>
       match k.toNat?, tid.toNat?, p.toNat? with
       | some k, some tid, some p => some (.strong (Kind.ofCode k) tid p, rest)
@@ -149,6 +149,7 @@ def canonR (s : DeSt) : Nat → RVal → CanonSt → CanonSt
   | _ + 1, .weak _ q, c =>
     let (n, c) := c.classOf q
     { c with out := s!"W{n}" :: c.out }
+  | _ + 1, .weakNull _, c => { c with out := "Wx" :: c.out }
 
 def canon (s : DeSt) (v : RVal) : String :=
   ",".intercalate ((canonR s 10000 v {}).out.reverse)
@@ -186,6 +187,7 @@ def handle : List String → String
       | .error .fuel => "fuel"
       | .error .deadStrong => "dead-strong"
       | .error .deadlock => "deadlock"
+      | .error .aliasNeedsAnchor => "sererr"
   | "rt" :: rest =>
     match pGraph rest with
     | none => "bad-op"
